@@ -55,6 +55,22 @@ def r_layout(F, records=(), enums=(), constants=()):
                 if g != w:
                     diffs.append("field %d: found %s, format says %s" % (i, g, w))
             out.append(bad("R-LAYOUT", inst, site, q, req, "; ".join(diffs[:4])))
+        # bit-fields whose whole range is data (indices, lengths, counts) must read back unsigned
+        for fname in sp.get("unsigned_bitfields", {}).get(q, []):
+            fl = [f for f in r["fields"] if f["name"] == fname]
+            if not fl:
+                continue
+            f = fl[0]
+            signed = f.get("is")
+            if f.get("enum_qn") and f["enum_qn"] in F.enums:
+                signed = F.enums[f["enum_qn"]].get("is")
+            inst = "%s::%s#unsigned" % (q, fname)
+            req = "the %d-bit field %s holds 0..%d (it must not be sign-extended when read)" % (f["width_bits"], fname, (1 << f["width_bits"]) - 1)
+            if not signed:
+                out.append(ok("R-LAYOUT", inst, "%s:%s" % (r["loc"]["file"].split("/")[-1], f["line"]), q, req, "declared %s" % f.get("ct")))
+            else:
+                out.append(bad("R-LAYOUT", inst, "%s:%s" % (r["loc"]["file"].split("/")[-1], f["line"]), q, req,
+                               "declared with signed type %s: values >= %d read back negative" % (f.get("ct"), 1 << (f["width_bits"] - 1))))
         # no padding bytes: field widths tile the record
         total = sum(f["width_bits"] for f in r["fields"])
         inst = "%s#nopad" % q
